@@ -283,6 +283,8 @@ def run(check, tier, seed, jobs=None, replay=None, only=None, extra_env=None, ke
 
     for ln in lines:
         print(ln)
+    for ic in inconc_cases[:3]:
+        print("  inconclusive case %s: %s" % (ic["id"][:80], " | ".join(ic["why"])[-700:].replace("\n", " // ")))
     if verdict == "inconclusive":
         print("INCONCLUSIVE property=%s reason=%s" % (prop, "; ".join(reasons)))
     print("%s property=%s tier=%s seed=%s cases=%d evaluations=%d distinct_nontrivial=%d "
